@@ -4,7 +4,8 @@ import Frp.Model.Str
   client credentials are concerned.  Mirrors, as the code is now:
 
     server/service.go   handleConnection, RegisterControl, RegisterWorkConn, RegisterVisitorConn
-    server/control.go   ControlManager.Add/Del/GetByID, NewControl, handlePing, handleNewProxy (name table only),
+    server/control.go   ControlManager.Add/Del/GetByID, NewControl, handlePing, handleNewProxy / handleCloseProxy
+                        (name table only),
                         Control.RegisterWorkConn (bounded pool), GetWorkConn (head of the pool), worker (session end)
     pkg/auth/token.go   VerifyLogin / VerifyPing / VerifyNewWorkConn
     pkg/auth/oidc.go    NewTokenVerifier (the oidc.Config it builds), OidcAuthConsumer (subjectsFromLogin)
@@ -25,7 +26,9 @@ import Frp.Model.Str
                              signed, with a supported algorithm, by a key the provider's JWKS publishes
     `Prim.now`             = `time.Now()` (same unit as the `exp` / `nbf` claims; the 5 min nbf leeway is `300`)
     `SshAuth.pubkey k proved`: `proved` = the ssh client signed the session with the private key of `k`
-                             (golang.org/x/crypto/ssh public-key authentication)
+                             (golang.org/x/crypto/ssh public-key authentication); the other ssh methods
+                             (none, password, keyboard-interactive, gssapi-with-mic) are decided by which fields
+                             of `ssh.ServerConfig` are set (`SshSrvCfg`, `sshTry`, `sshAuthLoop`)
   Plugins (`pluginManager.Login/NewWorkConn/Ping`) are arbitrary functions `msg → Option msg`
   (`none` = rejected / error); C15 is about the chain itself.
 
@@ -328,6 +331,15 @@ def handleNewProxy (srv : Srv) (conn : ConnId) (name : Str) : Srv × Out :=
     else (updSession srv s.runId (fun x => { x with proxies := x.proxies ++ [name] }),
           { reply := .proxyOk, closed := false })
 
+/-- `handleCloseProxy` → `Control.CloseProxy`: the name leaves `ctl.proxies` (and the proxy manager) when THIS
+    session holds it, nothing happens otherwise; no reply is written; `lastPing` is not touched -/
+def handleCloseProxy (srv : Srv) (conn : ConnId) (name : Str) : Srv × Out :=
+  match byCtl srv conn with
+  | none => (srv, { reply := .none, closed := true })
+  | some s =>
+    (updSession srv s.runId (fun x => { x with proxies := x.proxies.filter (fun n => n ≠ name) }),
+     { reply := .none, closed := false })
+
 /-- control connection `conn` ends: `worker` drains the pool, closes the proxies; `ctlManager.Del(runID, ctl)`
     deletes only if the table still holds this very control -/
 def sessionEnd (srv : Srv) (conn : ConnId) : Srv × Out :=
@@ -353,6 +365,7 @@ inductive Ev
   | first (internal : Bool) (conn : ConnId) (m : First)
   | ping (conn : ConnId) (m : Ping)
   | newProxy (conn : ConnId) (name : Str)
+  | closeProxy (conn : ConnId) (name : Str)
   | drop (conn : ConnId)
   | user (name : Str)                          -- a user connection to the listener of proxy `name`
   deriving DecidableEq, Repr
@@ -361,6 +374,7 @@ def stepG (fixed : Bool) (P : Plugins) (pr : Prim) (cfg : Cfg) (srv : Srv) : Ev 
   | .first i c m => handleFirstG fixed P pr cfg srv i c m
   | .ping c m => handlePing P pr cfg srv c m
   | .newProxy c n => handleNewProxy srv c n
+  | .closeProxy c n => handleCloseProxy srv c n
   | .drop c => sessionEnd srv c
   | .user n => ((takeWork srv n).1, { reply := .none, closed := (takeWork srv n).2.isNone })
 
@@ -483,10 +497,14 @@ def runT (fixed : Bool) (P : Plugins) (pt : PrimT) (cfg : Cfg) (st : TSrv) (evs 
 
 abbrev PubKey := Str
 
-/-- what an ssh client presents -/
+/-- ONE user-authentication request of an ssh client (RFC 4252; the methods golang.org/x/crypto/ssh's server
+    implements: server.go `serverAuthenticate`, `switch userAuthReq.Method`) -/
 inductive SshAuth
-  | none                                     -- the "none" method only
-  | pubkey (k : PubKey) (proved : Bool)      -- offers `k`; `proved` = signs with the private key of `k`
+  | none                                     -- "none"
+  | pubkey (k : PubKey) (proved : Bool)      -- "publickey": offers `k`; `proved` = signs with the private key of `k`
+  | password (pw : Str)                      -- "password" with this password (any bytes, also empty)
+  | kbd (answers : List Str)                 -- "keyboard-interactive": what it would answer to any challenge
+  | gssapi                                   -- "gssapi-with-mic"
   deriving DecidableEq, Repr
 
 /-- `loadAuthorizedKeysFromFile`: `authorizedKeysMap[string(pubKey.Marshal())] = strings.TrimSpace(comment)`,
@@ -502,18 +520,88 @@ def pubkeyCallback (file : Option (List (PubKey × Str))) (k : PubKey) : Option 
   | none => none
   | some l => akLookup l k
 
-/-- `ssh.NewServerConn(conn, sshConfig)`.  `akSet` = `cfg.AuthorizedKeysFile != ""` = `!sshConfig.NoClientAuth`.
-    `none` = the handshake fails and `TunnelServer.Run` returns; `some user` = accepted, `user` = the permission
-    extension "user" ("" when there are no permissions: with NoClientAuth the "none" method, open to every
-    client, succeeds). -/
-def sshHandshake (akSet : Bool) (file : Option (List (PubKey × Str))) : SshAuth → Option Str
-  | .none => if akSet then none else some []
+/-- the fields of `ssh.ServerConfig` that `serverAuthenticate` consults to let a client in.  A callback is
+    `none` when the field is nil; its answer is `none` = error, `some user` = permissions whose "user" extension
+    is `user` ("" without permissions). -/
+structure SshSrvCfg where
+  noClientAuth   : Bool                                -- NoClientAuth
+  noClientAuthCb : Option (Option Str)                 -- NoClientAuthCallback (and what it answers)
+  pubkeyCb       : Option (PubKey → Option Str)        -- PublicKeyCallback
+  passwordCb     : Option (Str → Option Str)           -- PasswordCallback
+  kbdCb          : Option (List Str → Option Str)      -- KeyboardInteractiveCallback
+  gssapi         : Option (Option Str)                 -- GSSAPIWithMICConfig (and what the exchange answers)
+
+/-- outcome of one request: accepted / refused, the client may go on / the connection is torn down -/
+inductive SshTry
+  | ok (user : Str)
+  | fail
+  | abort
+  deriving DecidableEq, Repr
+
+def SshTry.ofCb : Option Str → SshTry
+  | some u => .ok u
+  | none => .fail
+
+/-- one pass of the `switch userAuthReq.Method` in `serverAuthenticate`.  A method whose callback is nil fails
+    ("ssh: password auth not configured", …).  publickey: the callback decides about the KEY (the client's
+    query); the signed request that follows is verified with that key and a bad signature ends the
+    connection (`return nil, err`). -/
+def sshTry (sc : SshSrvCfg) : SshAuth → SshTry
+  | .none =>
+    if sc.noClientAuth then
+      match sc.noClientAuthCb with
+      | none => .ok []
+      | some r => SshTry.ofCb r
+    else .fail
+  | .password pw =>
+    match sc.passwordCb with
+    | none => .fail
+    | some f => SshTry.ofCb (f pw)
+  | .kbd ans =>
+    match sc.kbdCb with
+    | none => .fail
+    | some f => SshTry.ofCb (f ans)
+  | .gssapi =>
+    match sc.gssapi with
+    | none => .fail
+    | some r => SshTry.ofCb r
   | .pubkey k proved =>
-    if akSet then
-      match pubkeyCallback file k with
-      | some u => if proved then some u else none
-      | none => none
-    else some []
+    match sc.pubkeyCb with
+    | none => .fail
+    | some f =>
+      match f k with
+      | none => .fail
+      | some u => if proved then .ok u else .abort
+
+/-- `config.MaxAuthTries` is left 0 by frp: `ServerConfig.SetDefaults` ⇒ 6 -/
+def sshMaxAuthTries : Nat := 6
+
+/-- the `userAuthLoop` of `serverAuthenticate` over the requests a client sends, in order.  `f` = authFailures,
+    `nc` = noneAuthCount (a client's first "none" is not counted as a failure).  `none`: the client ran out of
+    requests (EOF), was disconnected after 6 failures, or sent a bad signature. -/
+def sshAuthLoop (sc : SshSrvCfg) : Nat → Nat → List SshAuth → Option Str
+  | _, _, [] => none
+  | f, nc, a :: rest =>
+    if f ≥ sshMaxAuthTries then none else
+    let nc' := if a = .none then nc + 1 else nc
+    match sshTry sc a with
+    | .ok u => some u
+    | .abort => none
+    | .fail => sshAuthLoop sc (if f > 0 ∨ a ≠ .none ∨ nc' ≠ 1 then f + 1 else f) nc' rest
+
+/-- the `ssh.ServerConfig` pkg/ssh/gateway.go `NewGateway` builds (source facts `sshCfgWrites`, `sshCfgLits`):
+    `&ssh.ServerConfig{}`, then `NoClientAuth = cfg.AuthorizedKeysFile == ""` and `PublicKeyCallback = …`; no other
+    authentication field is ever given a value.  `akSet` = `cfg.AuthorizedKeysFile != ""`. -/
+def gwSshCfg (akSet : Bool) (file : Option (List (PubKey × Str))) : SshSrvCfg :=
+  { noClientAuth := !akSet, noClientAuthCb := none, pubkeyCb := some (pubkeyCallback file),
+    passwordCb := none, kbdCb := none, gssapi := none }
+
+/-- `ssh.NewServerConn(conn, sshConfig)` for a client sending the requests `reqs`.
+    `none` = the handshake fails and `TunnelServer.Run` returns; `some user` = accepted, `user` = the permission
+    extension "user" ("" when there are no permissions: with NoClientAuth the "none" method, which every
+    client sends first, succeeds). -/
+def sshHandshake (akSet : Bool) (file : Option (List (PubKey × Str))) (reqs : List SshAuth) : Option Str :=
+  sshAuthLoop (gwSshCfg akSet file) 0 0 reqs
 
 /-- what `parseClientAndProxyConfigurer` extracts from the exec payload (`--proxy_name`, `--user`, `--token`) -/
 structure GwCmd where
@@ -524,7 +612,7 @@ structure GwCmd where
 
 /-- one ssh connection to the gateway -/
 structure Tunnel where
-  auth  : SshAuth
+  reqs  : List SshAuth      -- the user-auth requests the client sends, in order (clients start with "none")
   file  : Option (List (PubKey × Str))
   cmd   : Option GwCmd      -- none: no forward request / command within 3 s, unsupported proxy type, bad flag, help
   conn  : ConnId            -- control connection of the virtual client (a net.Pipe put on the internal listener)
@@ -555,7 +643,7 @@ inductive GwOut
     (`waitProxyStatusReady` error) closes the virtual client, i.e. ends the session. -/
 def gwTunnel (fixed : Bool) (P : Plugins) (pr : Prim) (cfg : Cfg) (akSet : Bool) (srv : Srv) (t : Tunnel) :
     Srv × GwOut :=
-  match sshHandshake akSet t.file t.auth with
+  match sshHandshake akSet t.file t.reqs with
   | none => (srv, .authFail)
   | some pu =>
     match t.cmd with
@@ -579,6 +667,7 @@ inductive NetEv
   | first (conn : ConnId) (m : First)
   | ping (conn : ConnId) (m : Ping)
   | newProxy (conn : ConnId) (name : Str)
+  | closeProxy (conn : ConnId) (name : Str)
   | drop (conn : ConnId)
   | user (name : Str)
   deriving DecidableEq, Repr
@@ -587,6 +676,7 @@ def NetEv.toEv : NetEv → Ev
   | .first c m => .first false c m
   | .ping c m => .ping c m
   | .newProxy c n => .newProxy c n
+  | .closeProxy c n => .closeProxy c n
   | .drop c => .drop c
   | .user n => .user n
 
